@@ -5,7 +5,9 @@
 #define GS_LMAX 6
 #define GS_KMAX 1
 #define GS_SPL 4
+#ifndef PUNCT_SYNC
 #define GS_NO_TABLES
+#endif
 #include "scan_common.h"
 #include "scan_leafstubs.h"
 
@@ -26,6 +28,12 @@ unsigned char g_inj;   /* ghost: the byte there before the call */
 
 /* scan() calls scankind(scanner, &t->loc) with the spelling buffer idle and the scanner standing on the first
    character not yet tokenised */
+#ifdef PUNCT_SYNC
+/* C11: the scanner location stays in step with the bytes consumed (every new-line byte counted once) */
+#define PUNCT_SYNC_POST(X) X(SYNC_LINE(s)) X(SYNC_COL(s))
+#else
+#define PUNCT_SYNC_POST(X)
+#endif
 #define PRE_PUNCT(X) \
 	X(s != 0 && loc != 0 && s->file == ghost_file()) \
 	X(g_in_n <= G_IN_MAX && g_m <= GS_LMAX && gs_canonical()) \
@@ -52,6 +60,7 @@ unsigned char g_inj;   /* ghost: the byte there before the call */
 	/* frame: the scanner keeps its file and its place in the include stack; the file's bytes are not modified */ \
 	X(s->file == ghost_file() && s->next == 0 && s->loc.file == g_file0) \
 	X(g_in[g_j] == g_inj && g_in_n == g_n0) \
+	PUNCT_SYNC_POST(X) \
 	/* pushback depth needed from stdio */ \
 	X(g_unget_max <= 2) \
 	CANARY(X, !(PUNCT_CANARY))
